@@ -277,7 +277,10 @@ def aggregate(pid, p, tier, seed, legs_results, t0, builds_used, extra=None):
             distinct += rep.get("distinct_nontrivial", 0)
             for k, v in rep.get("counters", {}).items():
                 key = f"{lr.name}.{k}" if len(legs_results) > 1 else k
-                counters[key] = counters.get(key, 0) + v
+                if ".max." in "." + key:
+                    counters[key] = max(counters.get(key, 0), v)
+                else:
+                    counters[key] = counters.get(key, 0) + v
             for s in rep.get("samples", []):
                 if len(samples) < 8:
                     samples.append(s)
